@@ -460,6 +460,7 @@ impl Property for C03 {
     }
 
     fn generate(&self, rng: &mut Rng, tier: Tier) -> Case {
+        let scale_case = crate::gen::begin_case(rng);
         let opt = draw_optimizer(rng);
         if rng.chance(0.25) {
             let net = super::c03_net::generate(rng, &opt);
@@ -478,7 +479,7 @@ impl Property for C03 {
             if slots.iter().any(|s| s.layer == layer && s.filter == filter && s.bias == bias) {
                 continue;
             }
-            let dims = (rng.range(1, 3), rng.range(1, 2), rng.range(1, 3));
+            let dims = if scale_case { (rng.range(2, 6), rng.range(2, 6), rng.range(3, 9)) } else { (rng.range(1, 3), rng.range(1, 2), rng.range(1, 3)) };
             let n = dims.0 * dims.1 * dims.2;
             let pattern = if long {
                 rng.pick(&[Pattern::Constant, Pattern::Constant, Pattern::SignFlip, Pattern::Random, Pattern::Sparse])
